@@ -263,6 +263,11 @@ impl VM {
                 }
                 OpCode::GetGlobal => {
                     let idx = self.read_u16();
+                    if idx as usize >= self.globals.len() {
+                        return Err(Error::ReferenceError(
+                            "variabele wordt gebruikt voordat deze een waarde heeft".to_string(),
+                        ));
+                    }
                     let value = self.globals[idx as usize];
                     self.push(value);
                 }
